@@ -28,7 +28,7 @@ def sharedSymbols : List String :=
    "following-sibling", "preceding-sibling", "following", "preceding", "namespace",
    "@", "/", "//", "[", "(name)", ":", "*", ".", "..", "node", "text", "comment",
    "processing-instruction", "(integer)", "position", "last", "count", "not", "and", "or",
-   "=", "!=", "<", "<=", ">", ">=", "|"]
+   "=", "!=", "<", "<=", ">", ">=", "|", "(decimal)", "-"]
 
 def rowConst (row : List (List Nat)) : Bool := row.all fun ids => ids.length == 4 && ids.all (· == 0)
 
@@ -121,6 +121,7 @@ def symbolsOf : Expr → List String
   | .union l r => "|" :: (symbolsOf l ++ symbolsOf r)
   | .count e => "count" :: symbolsOf e
   | .num _ => ["(integer)"]
+  | .lit neg _ => (if neg then ["-"] else []) ++ ["(decimal)", "(integer)"]   -- `-1` / `1.5`
   | .position => ["position"]
   | .last => ["last"]
   | .cmp op l r => cmpSymbol op :: (symbolsOf l ++ symbolsOf r)
